@@ -135,3 +135,14 @@ package keeper
 //@ ensures err == nil ==> (forall i :: 0 <= i && i < len(result) ==> vstatus(Store_oracle, result[i]).IsActive)
 //@ loop 0: invariant forall j :: 0 <= j && j < #i ==> vstatus(Store_oracle, validators[j]).IsActive
 //@ loop 0: invariant len(validators) == size
+
+// ---- C14: oracle block reward ------------------------------------------------------------------------------
+// Only validators that voted and are oracle-active are rewarded, and what is distributed in the distribution
+// module's books (community fund, validator rewards, proposer remainder) is derived from exactly the integer
+// coins that were transferred from the fee collector - not from the untruncated decimal amount.
+//@ func (k Keeper) AllocateTokens
+//@ may_panic
+//@ modifies Bank, Other
+//@ assert before communityTax: oracleReward == ext("NewDecCoinsFromCoins", oracleRewardInt)
+//@ loop 0: invariant forall j :: 0 <= j && j < len(toReward) ==> (exists i :: 0 <= i && i < #i && toReward[j].power == previousVotes[i].Validator.Power)
+//@ loop 1: invariant true
